@@ -34,7 +34,7 @@ func sortNaturalFilter(array []any, key any) any {
 			}
 			ev := rv.MapIndex(reflect.ValueOf(name).Convert(rv.Type().Key()))
 			if ev.IsValid() && ev.CanInterface() {
-				if s, ok := ev.Interface().(string); ok {
+				if s, ok := values.ToLiquid(ev.Interface()).(string); ok {
 					return strings.ToLower(s)
 				}
 			}
